@@ -358,10 +358,56 @@ def string_enums(rep):
     return events
 
 
+def holder_probes(rep, thorough):
+    """a code point inside the message that carries it: every enum-valued field of every corpus object is set to the members of
+    its enumeration (through the constructor), composed and parsed back; the field must come back as that member"""
+    import attr
+    import enum
+    from .. import objects
+    from ..api import call
+    events = []
+    seen = set()
+    for cls, obj, wire in objects.templates():
+        if isinstance(obj, enum.Enum) or type(obj) is not cls or not attr.has(cls):
+            continue
+        for f in attr.fields(cls):
+            if not f.init:
+                continue
+            cur = getattr(obj, f.name, None)
+            if not isinstance(cur, enum.Enum) or (cls, f.name) in seen:
+                continue
+            seen.add((cls, f.name))
+            members = list(type(cur))
+            if len(members) > (40 if thorough else 10):
+                members = members[:6] + members[-4:]
+            for m in members:
+                out, var, _ = call(lambda mm: attr.evolve(obj, **{f.name.lstrip('_'): mm}), m)
+                if out != 'ok':
+                    continue
+                o1, w, _ = call(lambda v: bytes(v.compose()), var)
+                if o1 != 'ok':
+                    continue
+                o2, back, _ = call(cls.parse_exact_size, w)
+                if o2 != 'ok':
+                    outcome, known = ('invalid', False) if o2 in ('InvalidValue', 'InvalidType', 'NotEnoughData', 'TooMuchData') else ('error', True)
+                else:
+                    got = getattr(back, f.name, None)
+                    known = True
+                    outcome = 'member' if got is m or got == m else 'redirected' if isinstance(got, enum.Enum) else 'altered'
+                events.append({'ev': 'probe', 'enum': '%s.%s' % (cls.__name__, f.name), 'code': m.name, 'known': known, 'outcome': outcome,
+                               'listoutcome': '-', 'wire': w.hex()[:200]})
+    return events
+
+
 def run(rep):
     thorough = rep.tier == 'thorough'
     corpus.import_all()
     events = numeric_spaces(rep, thorough) + cross_width_histories(rep) + record_level(rep) + int_tables() + string_enums(rep)
+    hp = holder_probes(rep, thorough)
+    rep.extra['holder_field_probes'] = len(hp)
+    for e in hp:
+        rep.case('holder|%s|%s' % (e['enum'], e['code']))
+    events += hp
     spaces = [e for e in events if e['ev'] == 'space']
     rep.extra['exhaustive_code_spaces'] = sorted({'%s (%d codes)%s' % (e['enum'], e['space'], '' if e['container'] == '-' else ' in ' + e['container']) for e in spaces})
     rep.extra['tables_checked_for_aliases'] = len([e for e in events if e['ev'] == 'table'])
@@ -398,7 +444,8 @@ def run(rep):
                 rep.violation('%s|%s|%s' % (what, clause, '='.join(names)), '%s: %s share one code' % (what, names),
                               {'enum': what, 'names': names})
         else:
-            rep.violation('%s|%s|%s' % (what, clause, 'probe'), '%s: %s for %s' % (what, clause, e['code']), e)
+            rep.violation('%s|%s|%s' % (what, clause, 'probe' if 'wire' not in e else 'in-message:' + e['code']),
+                          '%s: %s for %s' % (what, clause, e['code']), e)
     rep.assumptions += ['protocol-assigned shared numbers: SSH message codes 30/31 (RFC 4253 / RFC 4419)']
 
 
